@@ -104,20 +104,26 @@ Fixpoint between (a b : Z) (l : list opinfo) : list opinfo :=
 Definition find_op (i : Z) (l : list opinfo) : option opinfo := find (fun y => oi_id y =? i) l.
 
 (* 1 alias_via_view: no common SSA value (the conflict comes through a view / cast)
-   2 cross_level: common value but different parent blocks
+   2 cross_level: common value but different parent blocks, or the same block (not a loop body)
+                  reached again around the back-edge of an enclosing loop
    3 ctl_between: same block, but an op with a region lies between them (its inner ops have
                   another parent): a barrier there is not on every path / clears the list
    0 inside the proved class *)
-Definition classify_pair (flat : list opinfo) (a b : Z) : Z :=
+Definition classify_pair (flat : list opinfo) (same_iter : bool) (a b : Z) : Z :=
   match find_op a flat, find_op b flat with
   | Some x, Some u =>
       if negb (shares x u || shares u x) then 1
       else if negb (oi_parent x =? oi_parent u) then 2
-      else if negb (seg_ok flat (oi_parent x) (between a b flat) &&
-                    seg_ok flat (oi_parent x) (between b a flat) &&
-                    (* in a loop body the path may go around the back-edge: the whole body must be straight-line *)
-                    (if oi_pfor x then seg_ok flat (oi_parent x) (between (oi_parent x) (oi_pyield x) flat) else true)) then 3
-      else 0
+      else if same_iter then
+        (* both instances belong to one execution of the block: the forward path *)
+        if seg_ok flat (oi_parent x) (between a b flat) && seg_ok flat (oi_parent x) (between b a flat) then 0 else 3
+      else
+        (* instances of different iterations of an enclosing loop: the path leaves the block.  Only a
+           loop body that is the block itself is covered (barrier before its yield); a block nested in
+           a loop through an scf.if has no barrier on the enclosing back-edge *)
+        if oi_pfor x then
+          (if seg_ok flat (oi_parent x) (between (oi_parent x) (oi_pyield x) flat) then 0 else 3)
+        else 2
   | _, _ => 1
   end.
 
@@ -136,7 +142,7 @@ Fixpoint rrun (o : roracle) (s : rstmt) (ctx : list nat) {struct s} : list instr
     | x :: r => rrun o x ctx ++ rrunl r ctx
     end in
   match s with
-  | RLeaf id core bar rd wr => if bar then [None] else [Some (mkOp [id] core rd wr)]
+  | RLeaf id core bar rd wr => if bar then [None] else [Some (mkOp (id :: map Z.of_nat ctx) core rd wr)]
   | RFor id b => flat_map (fun i => rrunl b (i :: ctx)) (seq 0 (rtrip o id ctx))
   | RIf id t e => if rcond o id ctx then rrunl t ctx else rrunl e ctx
   end.
